@@ -475,6 +475,19 @@ def run(ctx):
         got = (b.get("type"), b.get("jr:preload"), b.get("jr:preloadParams"))
         r5.check(got == (btype, preload, pparams) and not (qtd.get(typ) or {}).get("control"), f"metadata type {typ!r}", f"bind type {btype}, jr:preload={preload}, jr:preloadParams={pparams}, no control",
                  "pyxform/question_type_dictionary.py", why_fail=f"table has {got}")
+    # upload controls: the media type follows from the kind of thing uploaded, whichever spelling of the type is used
+    # (independent table: the word in the type name -> the MIME family)
+    UPLOAD_WORDS = (("picture", "image/*"), ("photo", "image/*"), ("image", "image/*"), ("audio", "audio/*"), ("video", "video/*"), ("osm", "osm/*"), ("file", "application/*"))
+    n_up = 0
+    for typ, ent in sorted(qtd.items()):
+        c_ = (ent or {}).get("control") or {}
+        if c_.get("tag") != "upload":
+            continue
+        n_up += 1
+        want_mt = next((mt for w_, mt in UPLOAD_WORDS if w_ in typ.split()), None)
+        r5.check(want_mt is not None and c_.get("mediatype") == want_mt and ((ent.get("bind") or {}).get("type") == "binary"), f"upload type {typ!r}", f"mediatype {want_mt}, bind type binary",
+                 "pyxform/question_type_dictionary.py", why_fail=f"table has mediatype {c_.get('mediatype')!r}, bind {ent.get('bind')}")
+    r5.check(n_up >= 14, "upload types", "the fourteen upload spellings are in the table", "pyxform/question_type_dictionary.py", why_fail=f"{n_up}")
     # ------------------------------------------------------------------ R6
     r6 = Rule("C04", "C04.R6", "parameter / appearance wiring and allowed-parameter tuples", floor=20,
               necessary="a parameter written to the wrong attribute, accepted but ignored, or consumed without being allowed")
